@@ -54,6 +54,29 @@ Theorem C09_cost_raw_unrepaired_refuted : exists s r v s' x,
   Normal s /\ rapply_gen true true s r (Some v) true = (s', x) /\ x = Err ValueError /\ s' <> s.
 Proof. exact raw_late_refuted. Qed.
 
+(* whole-field assignment `cost_spec.raw_cost = cost` of a free cost: the state is the assigned cost,
+   so the getters, and every later assignment sequence, are those of the assigned cost; an attached
+   cost is refused with nothing written.  (The model has no component cache; that the code has none
+   either is what the correspondence checks after every whole-cost step.) *)
+Theorem C09_cost_whole_assignment : forall s c ops s' rs, Normal c ->
+  set_raw_cost false s c = (c, Ok tt) /\
+  (run c ops = (s', rs) -> Normal s' /\ (abs s', rs) = sp_run (abs c) ops).
+Proof. exact whole_assignment. Qed.
+
+Theorem C09_cost_whole_assignment_refused : forall s c, set_raw_cost true s c = (s, Err ValueError).
+Proof. exact whole_assignment_refused. Qed.
+
+(* Known finding C09:cost:separate-number-currency-components.  The parser also accepts a bare number
+   and a bare currency as two components (`{12.34, USD}`; not a valid beancount cost: "duplicate cost").
+   That shape is outside Normal, and there the setters do lose a value: `{1, C}`, number_total = 5
+   gives `{{5 C, 1}}` and number_per reads None.  All theorems above assume Normal, which excludes it. *)
+Theorem C09_cost_non_normal_refuted : exists s ops,
+  separate_b s = true /\ abs (fst (run s ops)) <> fst (sp_run (abs s) ops).
+Proof. exact non_normal_refuted. Qed.
+
+Theorem C09_cost_separate_not_normal : forall s, separate_b s = true -> normal_b s = false.
+Proof. exact separate_not_normal. Qed.
+
 (* from_value produces a normal state reading back its arguments, or refuses an invalid record *)
 Theorem C09_cost_from_value : forall p t c d l m,
   match from_value p t c d l m with
